@@ -134,11 +134,14 @@ def finish(res, level_text, rule, assumptions, wall, exhaustive=True):
     prop = res.prop
     kf = findings.load()
     violations, known = [], {}
+    inexact = 0
     for b in res.bad:
         f = findings.classify(prop, b, kf)
         if f is not None:
             known.setdefault(f["id"], [f, 0])
             known[f["id"]][1] += 1
+            if b.get("family") == "heap" and not (b.get("stale") and b.get("mech_match")):
+                inexact += 1
         else:
             violations.append(b)
     os.makedirs(os.path.join(VERIF, "replays"), exist_ok=True)
@@ -168,7 +171,7 @@ def finish(res, level_text, rule, assumptions, wall, exhaustive=True):
             "states": res.states, "transitions": res.transitions, "traces_validated_against_impl": res.traces,
             "samples": res.samples[:4] or [{"note": "no sample"}],
             "evaluations": res.evaluations, "distinct_nontrivial": res.nontrivial, "rule": rule,
-            "out_of_claim": res.unspec, "known_findings": {k: v[1] for k, v in known.items()},
+            "out_of_claim": res.unspec, "known_findings": {k: v[1] for k, v in known.items()}, "known_findings_not_exactly_predicted_by_level_M": inexact,
             "exhaustive": exhaustive, "explanation": level_text, "lemmas": res.lemmas, **res.extra,
         },
         "assumptions": assumptions, "wall_s": wall, "violations": len(printed),
@@ -280,9 +283,10 @@ def heap_trace_stage(res, prop, n, shards=NCPU, timeout=900):
                 pr = byid[v[1]]
                 res.bad.append({"steps": pr["steps"][:v[2]], "opts": pr["opts"], "handle": v[3], "verdict": v[4], "expected": v[5], "mech": v[6],
                                 "observed": pr["rec"][v[2] - 1]["res"] if v[3] == 0 else pr["rec"][v[2] - 1]["obs"][v[3] - 1] if v[3] <= len(pr["rec"][v[2] - 1]["obs"]) else None,
-                                "stale": v[4] == "known", "mech_match": v[4] == "known", "binding": "B:code->tlc", "family": "heap", "_pid": v[1], "_step": v[2]})
+                                "stale": v[4] == "known", "mech_match": v[4] == "known", "maystale": v[4] in ("known", "known-inexact"),
+                                "binding": "B:code->tlc", "family": "heap", "_pid": v[1], "_step": v[2]})
             os.remove(path)
-    _confirm_programs(res, "drivers_heap", prop, per, shards, byid, lambda b: not (b.get("stale") and b.get("mech_match")))
+    _confirm_programs(res, "drivers_heap", prop, per, shards, byid, lambda b: not b.get("maystale"))
     nsteps = sum(len(p["steps"]) for p in byid.values())
     res.states += states
     res.transitions += states
